@@ -200,6 +200,10 @@ def run(ctx):
     corpus = _json.load(open(_os.path.join(core.VERIF, "harness", "corpus", "c15.json")))
     corpus = corpus if (thorough or scale > 1) else corpus[:3]
     todo = [{k: v for k, v in c.items() if k != "why"} for c in corpus]
+    # a building metered without any noise whose usage is perfectly constant: every residual is exactly zero (fixed defect C15-F2)
+    todo.append(dict(shape="flat", params=dict(base=47.245, hbp=47.64, cbp=74.2, hb_slope=0.0, cb_slope=0.0),
+                     weather=dict(mean=55.07, amp=24.58, noise=4.35), weather_seed=512612, tz="UTC", year=2014, noise_seed=30519,
+                     noise=0.0, profile=rng.choice(["current", "legacy"])))
     for i in range(n_fits):
         for _ in range(100):
             case = gen_case(rng)
